@@ -577,11 +577,16 @@ def runScript (env : Env) : Nat → PP → Script → SRes
       let np : PP := { buf := p.buf, override := p.override }
       match doPrint env fuel np args.toList with
       | .ok np' => runScript env fuel { p with buf := np'.buf.setMode p.buf.mode } k
+      -- a panic propagating out of the nested printer (raised while a panic value was being
+      -- printed) is caught by the enclosing method's catchPanic, with the buffer handed back
+      -- (D11): `Res.panic` carries no state, so the model abstains here
+      | .panic => .abort .unsupported
       | r => .abort r
     | .printf f args k =>
       let np : PP := { buf := p.buf, override := p.override }
       match doPrintf env fuel np f args.toList with
       | .ok np' => runScript env fuel { p with buf := np'.buf.setMode p.buf.mode } k
+      | .panic => .abort .unsupported
       | r => .abort r
 
 /-- `printValue`. `depth` as in Go. -/
